@@ -436,11 +436,20 @@ func checkC07WSIgn(c *Ctx, sw *ScopeWS, jsonCfg string, ign *c07Ignore, tag stri
 		}
 		// ---- undefined variables
 		for _, o := range f.Bind.Occs {
-			if o.IsDecl || o.Write || !queryable(o) {
+			// (the implicit self of a method is a bound name like any parameter)
+			if o.IsDecl || o.Write || (!queryable(o) && !(o.Decl != nil && o.Decl.Kind == DSelf)) {
 				continue
 			}
 			name := o.Tok.Val
 			rg := f.TokRange(o.Tok)
+			if o.Decl != nil && o.Decl.Kind == DSelf {
+				// the tool reads the implicit self as the table the method is declared on: when the root of that path is itself
+				// not defined anywhere the report at self is about that root
+				if root := c07MethodRoot(f, o.Decl); root == nil || (root.Decl == nil && len(sw.GlobalDefs[root.Tok.Val]) == 0) {
+					c.Count("dont_care_self_of_a_method_on_an_undefined_table", 1)
+					continue
+				}
+			}
 			has2 := hasDiagAt(ds, 2, rg)
 			has3 := hasDiagAt(ds, 3, rg)
 			cls := lineFeatures(f.Src, o.Tok) + "|" + occClass(f, o)
@@ -686,4 +695,19 @@ func c07Quirk(f *SFile, o *Occ) bool {
 		}
 	}
 	return false
+}
+
+// c07MethodRoot: the occurrence of the first name of `function a.b.c:m(` for the implicit self declared by that method's body
+// (the body node starts at the keyword `function`).
+func c07MethodRoot(f *SFile, d *Decl) *Occ {
+	if d.Stat == nil || d.Stat.First == nil || d.Stat.Tok == nil {
+		return nil
+	}
+	var root *Occ
+	for _, o := range f.Bind.Occs {
+		if o.Tok.Off >= d.Stat.First.End && o.Tok.Off < d.Stat.Tok.Off && (root == nil || o.Tok.Off < root.Tok.Off) {
+			root = o
+		}
+	}
+	return root
 }
